@@ -312,7 +312,7 @@ PROPS = {
                 "dna.DistMatrix: column permutation (SelectSites-like re-ordering with the weights), replication of "
                 "every column 2-3 times, integer weight k instead, explicit unit weights (bit-identical), reverse "
                 "complement of the whole alignment, row permutation (matrix permuted accordingly), 2/3/8/16/32 workers "
-                "against 1 (bit-identical), and a caller-supplied model whose k-th evaluation fails with 1/2/8 workers "
+                "against 1 (bit-identical), and a caller-supplied model whose k-th evaluation (or every evaluation from the k-th on) fails with 1/2/3/4/8/16 workers "
                 "under a 3 s watchdog (the call must return, with the error); the internal-gap counting mode is exempt "
                 "from the column relations; non-trivial = every case; distinct = distinct (relation, options, alignment)",
         "nontrivial": lambda m: True,
